@@ -13,6 +13,38 @@ ASSUME = [
 ]
 
 
+def stress(chk, prop, drv):
+    """Free-running executions (truly concurrent goroutines, seeded perturbation in the hooks; race
+    detector in the thorough tier) validated by TLC against the observer PipelineObs.tla."""
+    import json, re
+    thorough = chk.tier == "thorough"
+    if thorough:
+        drv = vlib.go_build("pipe", race=True)
+    out = vlib.scratch("pipestress-")
+    vlib.run_driver(chk, drv, ["stress", out, "400" if thorough else "40"], timeout=1500)
+    tp = os.path.join(out, "traces.ndjson")
+    lines = open(tp).read().splitlines()
+    starts = [i for i, l in enumerate(lines) if '"ev":"Reset"' in l]
+    r = vlib.run_tlc("pipe/PipelineTrace", cfg="PipelineTrace.cfg", workers=1, timeout=1500, env={"VERIF_TRACE": tp})
+    chk.add_tlc("validate:PipelineTrace", r)
+    m = re.search(r'^<<"REJECTS", "(.*)">>\s*$', r.out, re.M)
+    if not r.ok or not m:
+        raise vlib.MachineryError("PipelineTrace failed: %s" % (r.violation or r.error or "no verdict"))
+    for l1, msg in json.loads(json.loads('"' + m.group(1) + '"')):
+        l = l1 - 1
+        st = max(i for i in starts if i <= l)
+        en = min([i for i in starts if i > l] + [len(lines)])
+        cfg = json.loads(lines[st]).get("cfg", "?")
+        if not msg.startswith(prop):
+            chk.extra["rejections_attributed_elsewhere"] = chk.extra.get("rejections_attributed_elsewhere", 0) + 1
+            continue
+        desc = "free-running execution (%s) rejected at event %d (%s): %s" % (cfg, l - st, lines[l], msg)
+        vlib.log("[trace] " + desc)
+        chk.disagree("%s:stress:%s" % (prop, msg[:80]), desc,
+                     {"cfg": cfg, "rule": msg, "trace": [json.loads(x) for x in lines[st:en]][:500]})
+    chk.extra["free_running_executions_validated"] = len(starts)
+
+
 def run_pipe(chk, prop, mc, live, sims, thorough_mc=(), thorough_factor=8):
     chk.assumptions = ASSUME
     chk.rule = ("a case is one TLC-simulated behaviour of Pipeline.tla (sequence of gate-to-gate steps of submitters, "
@@ -39,6 +71,7 @@ def run_pipe(chk, prop, mc, live, sims, thorough_mc=(), thorough_factor=8):
         rows += got
     vlib.run_driver_sharded(chk, drv, ["replay"], rows, shards=12, timeout=1500,
                             keep=lambda rec: rec["key"].startswith(prop + ":"))
+    stress(chk, prop, drv)
     chk.traces = chk.evaluations  # every forced behaviour is a real execution checked step by step against the spec
     chk.extra["binding"] = ("RP: TLC behaviours forced on the real pipeline through blocking gates; every step's "
                             "expected gate arrival / return value / sequence number / PendingCount operand compared")
